@@ -75,7 +75,13 @@ def gen_case(r, allow_bad=True):
     if stack:
         depth = shape[0]
         c = r.random()
-        rec["labels"] = True if c < 0.3 else [f"L{i}" + r.choice(["", "é", " x"]) for i in range(r.choice([depth, depth, max(depth - 1, 0), depth + 1]))]
+        if c < 0.3:
+            rec["labels"] = True
+        elif c < 0.55:
+            # the same few label names in different orders in different arrays (a label is only unique within its array)
+            rec["labels"] = r.sample(LABEL_POOL, min(depth, len(LABEL_POOL)))
+        else:
+            rec["labels"] = [f"L{i}" + r.choice(["", "é", " x"]) for i in range(r.choice([depth, depth, max(depth - 1, 0), depth + 1]))]
     else:
         rec["labels"] = None
     rec["then"] = []
@@ -169,9 +175,45 @@ def body_obs(grp):
     return out
 
 
+LEAK = [None]         # label-addressing failure found while running the last case (read by the oracles)
+LABEL_POOL = ["mean", "max", "std", "a", "b", "sum"]
+EARLIER = []          # stack arrays of earlier cases of this process: each must keep addressing its own slices
+
+
+def addresses_own_slices(a):
+    """`ar[label]` / `get_slice(label)` returns slice i for the i-th label (distinct labels)"""
+    labels = [str(l) for l in a.slicelabels]
+    if len(set(labels)) != len(labels):
+        return None
+    for i, l in enumerate(a.slicelabels):
+        try:
+            s = a.get_slice(l)
+        except Exception as e:
+            return {"label": str(l), "lookup_raised": type(e).__name__}
+        if alpha.array_token(s.data) != alpha.array_token(a.data[i]):
+            return {"label": str(l), "expected_slice": i, "returned_another_slice": True}
+    return None
+
+
+def check_earlier():
+    for a in EARLIER:
+        f = addresses_own_slices(a)
+        if f:
+            return dict(f, earlier_array_of_this_process=True, its_labels=[str(l) for l in a.slicelabels])
+    return None
+
+
+def remember(*objs):
+    for a in objs:
+        if a is not None and getattr(a, "is_stack", False) and a.depth > 0:
+            EARLIER.append(a)
+    del EARLIER[:-4]
+
+
 def run_impl(rec):
     """returns the observation in the shape of the driver's answer to op 'array'"""
     out = {"ctor": None, "setters": [], "body": None, "back": None, "slices": None}
+    LEAK[0] = None
     data = build_data(rec)
     kw = {}
     if rec["dims"] is not None:
@@ -218,6 +260,15 @@ def run_impl(rec):
         out["slices"] = {str(l): int(a.slicelabels._dict[l]) for l in a.slicelabels}
     else:
         out["slices"] = {}
+    # state must not leak between Arrays: the arrays of this case and those of earlier cases still address their own slices
+    leak = None
+    for x in (a, b):
+        if x is not None and x.is_stack and leak is None:
+            leak = addresses_own_slices(x)
+    if leak is None:
+        leak = check_earlier()
+    remember(a, b)
+    LEAK[0] = leak
     return out, (a, b)
 
 
